@@ -35,8 +35,8 @@ import ast
 from ..model import AnchorMissing, CannotAnalyse, walk_no_nested
 from ..poly import Rat, C, mk_atom, lem_min, lem_max, restrict, gamma_conds, fn, subst
 from ..vg import Evaluator, vkey, atoms_of, Const
-from .common import calls_to, site, key, stmt_of, enclosing, kwarg
-from ..dataflow import names_in
+from .common import calls_to, site, key, stmt_of, enclosing, kwarg, resolved, iter_value
+from ..dataflow import names_in, local_defs
 
 NW = 'gnpy.core.network'
 EXPLANATION = (
@@ -261,10 +261,9 @@ def r3_saturation(ctx):
     if len(cg) == 1 and len(rets) == 1:
         pos = None
         for k_, e in enumerate(rets[0].elts):
-            if isinstance(e, ast.Name):
-                d_ = [n for n in walk_no_nested(cgf.node) if isinstance(n, ast.Assign) and isinstance(n.targets[0], ast.Name) and n.targets[0].id == e.id]
-                if len(d_) == 1 and isinstance(d_[0].value, ast.BinOp) and isinstance(d_[0].value.op, ast.Add) and 'pref_total_db' in names_in(d_[0].value):
-                    pos = k_
+            e = resolved(local_defs(cgf.node), e)
+            if isinstance(e, ast.BinOp) and isinstance(e.op, ast.Add) and 'pref_total_db' in names_in(e):
+                pos = k_
         tg = stmt_of(f, cg[0]).targets[0] if isinstance(stmt_of(f, cg[0]), ast.Assign) else None
         okp = pos is not None and isinstance(tg, ast.Tuple) and len(tg.elts) == len(rets[0].elts) and ast.unparse(tg.elts[pos]) == names[1]
     ctx.check('R3.saturation', f'{site(f, vcalls[0])} VOA step', names[0] == f.params[0] and okp and names[2] == 'power_mode', key(f, 'voa-args'),
